@@ -133,6 +133,23 @@ fn alphabet(dist: bool) -> Vec<Item> {
                 (frame(&f2, 4), Exp::Msg(DistMsg { control: c2.clone(), payload: Some(p2.clone()) })),
             ] });
         }
+        // cache entries whose atom text is longer than 255 bytes (legal: 255 characters of up to four bytes each; the header then
+        // uses two-byte lengths for all its entries), announced and then referred to
+        for (iname, text) in [("hdr_long_atom_200_cyrillic", "\u{436}".repeat(200)), ("hdr_long_atom_255_four_byte", "\u{1F600}".repeat(255)), ("hdr_long_atom_256_bytes", "\u{e9}".repeat(128))] {
+            let names: Vec<String> = vec![text.clone(), "short".to_string()];
+            let announce: Vec<HdrRef> = vec![HdrRef { segment: 3, index: 9, new_text: Some(names[0].clone()) }, HdrRef { segment: 0, index: 1, new_text: Some(names[1].clone()) }];
+            let c = RefVal::Tuple(vec![RefVal::int(2), RefVal::atom(""), my_pid(1)]);
+            let p1 = RefVal::Tuple(vec![RefVal::atom(&names[0]), RefVal::atom("short")]);
+            let mut f1 = write_dist_header(&announce);
+            w_term_cached(&mut f1, &c, &names);
+            w_term_cached(&mut f1, &p1, &names);
+            let old: Vec<HdrRef> = vec![HdrRef { segment: 3, index: 9, new_text: None }];
+            let p2 = RefVal::list(vec![RefVal::atom(&names[0])], RefVal::Nil);
+            let mut f2 = write_dist_header(&old);
+            w_term_cached(&mut f2, &c, &names[..1].to_vec());
+            w_term_cached(&mut f2, &p2, &names[..1].to_vec());
+            v.push(Item { name: iname, frames: vec![(frame(&f1, 4), Exp::Msg(DistMsg { control: c.clone(), payload: Some(p1) })), (frame(&f2, 4), Exp::Msg(DistMsg { control: c.clone(), payload: Some(p2) }))] });
+        }
         // the same internal index in every one of the eight segments, each holding another atom: announced in one message,
         // all referred to as old entries in the next (slots are (segment, index) pairs)
         {
